@@ -229,7 +229,7 @@ Lemma mapfn_ok_sound k d r : mapfn_ok k d r = true -> Rabs (mapfn k (Q2R d) - Q2
 Proof. unfold mapfn_ok. apply within_sound. destruct k; [apply haldane_I_ok | apply kosambi_I_ok]. Qed.
 
 Lemma mapfn_near_sound k d r : mapfn_near k d r = true ->
-  Rabs (mapfn k (Q2R d) - Q2R r) <= Q2R ((1 # 536870912) * (1 + Qabs_ d)).
+  Rabs (mapfn k (Q2R d) - Q2R r) <= Q2R (tol_near d r).
 Proof. unfold mapfn_near. apply within_sound. destruct k; [apply haldane_I_ok | apply kosambi_I_ok]. Qed.
 
 Lemma invmapfn_ok_sound k r d : - (1 / 2) < Q2R r < 1 / 2 -> invmapfn_ok k r d = true ->
